@@ -247,10 +247,10 @@ func ruleDestructiveOps(c *Ctx, r *Reporter) {
 				return
 			}
 			if key == "storage.Manager.recoverFromWAL|os.Rename" {
-				if r.Property == "C10" {
-					r.Bad(key, c.InsPos(ins), "on a replay error every log file is moved to a backup directory and the engine opens empty, reporting success: undamaged log files are discarded")
+				if r.Property == "C10" || r.Property == "C02" {
+					r.Bad(key, c.InsPos(ins), "on a replay error every log file is moved to a backup directory and the engine opens with empty memtables, reporting success: undamaged log files are discarded, and acknowledged writes that were only in the log are gone (also after a clean close, once the total log volume exceeds the recovery cap)")
 				} else {
-					r.Info(key, c.InsPos(ins), "backup move of all log files on a replay error: reported under C10/never-discard-logs")
+					r.Info(key, c.InsPos(ins), "backup move of all log files on a replay error: reported under C10 and C02")
 				}
 				return
 			}
